@@ -361,6 +361,11 @@ func (e *Engine) intrinsic(fr *frame, fn *ssa.Function, args []Value, c *ssa.Cal
 		e.allocLimit = int(e.mustConst(args[0].(*Term), "AllocLimit"))
 		return nil
 	case "AllocCheck":
+		if e.cfg.Replay != nil {
+			// concrete mode mirrors the native outcome line (allocations are concrete here)
+			id, _ := e.goString(args[0])
+			e.doAssert(e.tt.True, id)
+		}
 		return nil
 	case "Unwind":
 		e.unwind = int(e.mustConst(args[0].(*Term), "Unwind"))
@@ -1205,6 +1210,7 @@ func icContextWithValue(e *Engine, fr *frame, fn *ssa.Function, args []Value, c 
 func icRandRead(e *Engine, fr *frame, fn *ssa.Function, args []Value, c *ssa.CallCommon) (Value, bool) {
 	// arbitrary bytes: a fresh symbolic array (solver mode); zeros in concrete replay
 	s := args[0].(*Slice)
+	e.usedRand = true // not reproducible natively
 	if e.cfg.Replay == nil && s.bobj != nil && s.len.op == OpConst {
 		arr := e.tt.Fresh("rand", SArr, 0)
 		for i := uint64(0); i < s.len.lo; i++ {
